@@ -148,6 +148,13 @@ def payload_flow(chk, cls):
                             for i, h in enumerate(handed):
                                 if isinstance(h, ast.Name) and h.id == pname and i < len(m.params()):
                                     todo.append((m, m.params()[i], sk2))
+                                # handed over inside a display, e.g. (payload,): it re-appears as the variable of the
+                                # loops over that parameter
+                                if isinstance(h, (ast.Tuple, ast.List, ast.Set)) and any(isinstance(x, ast.Name) and x.id == pname for x in h.elts) and i < len(m.params()):
+                                    coll = m.params()[i]
+                                    for lp in ast.walk(m.node):
+                                        if isinstance(lp, (ast.For, ast.AsyncFor)) and isinstance(lp.iter, ast.Name) and lp.iter.id == coll and isinstance(lp.target, ast.Name):
+                                            todo.append((m, lp.target.id, sk2))
                             for kname, h in handed_kw.items():
                                 if isinstance(h, ast.Name) and h.id == pname and kname in m.params():
                                     todo.append((m, kname, sk2))
